@@ -188,6 +188,13 @@ def run_case(case):
                 k2 = rr.choice(pool) if order == 2 else None
             if testp and k1 == 'm':
                 k1 = 'x'
+            # elements (and their variations) may refer to another primary than particle 0: the Jacobi centre of mass of the inner bodies, which
+            # is what sim.add() uses by default.  vary() has to hand that primary to the derivative constructor, for full and test-particle variations.
+            primkind = 'jacobi' if (not cart and vi >= 2 and rr.random() < 0.5) else 'star'
+            if primkind == 'jacobi':
+                counters['evolution_elements_relative_to_jacobi_com'] = counters.get('evolution_elements_relative_to_jacobi_com', 0) + 1
+                if testp:
+                    counters['evolution_testparticle_variation_relative_to_jacobi_com'] = counters.get('evolution_testparticle_variation_relative_to_jacobi_com', 0) + 1
             T = P * rr.choice([3.0, 7.5, 20.0]) * rr.choice([1, 1, -1])
             dt = P / rr.choice([20.1, 41.3])
             # WHFast's deferred synchronisation must not change the variational particles either (to rounding): a third of the WHFast
@@ -204,10 +211,10 @@ def run_case(case):
                     sim.N_active = nreal - 1
                 if tracers:
                     sim.N_active = 1 + npl
-                prim = sim.particles[0].copy()
+                prim = sim.particles[0] if primkind == 'star' else sim.com(first=0, last=vi)
                 p = sim.particles[vi]
                 if not cart:
-                    o = p.orbit(primary=sim.particles[0], G=G)
+                    o = p.orbit(primary=prim, G=G)
                     if pal:
                         el = dict(m=p.m, a=o.a, **{'lambda': o.l}, h=o.e * math.sin(o.pomega), k=o.e * math.cos(o.pomega), ix=2 * math.sin(o.inc / 2) * math.cos(o.Omega), iy=2 * math.sin(o.inc / 2) * math.sin(o.Omega))
                     else:
@@ -216,7 +223,7 @@ def run_case(case):
                     el[k1] += delta1
                     if k2:
                         el[k2] += delta2
-                    q = make_particle(sim, sim.particles[0], el)
+                    q = make_particle(sim, prim, el)
                     for nm in ('x', 'y', 'z', 'vx', 'vy', 'vz', 'm'):
                         setattr(p, nm, getattr(q, nm))
                 else:
@@ -243,7 +250,7 @@ def run_case(case):
                     if cart:
                         setattr(v1.particles[0] if tpidx >= 0 else v1.particles[vi], k1, 1.0)
                     else:
-                        v1.vary(vi, k1)
+                        v1.vary(vi, k1, primary=prim)
                     var = v1
                     if order == 2:
                         if k2 == k1:
@@ -253,10 +260,10 @@ def run_case(case):
                             if cart:
                                 setattr(v1b.particles[vi], k2, 1.0)
                             else:
-                                v1b.vary(vi, k2)
+                                v1b.vary(vi, k2, primary=prim)
                         v2 = sim.add_variation(order=2, first_order=v1, first_order_2=v1b)
                         if not cart:
-                            v2.vary(vi, k1, k2)
+                            v2.vary(vi, k1, k2, primary=prim)
                         var = v2
                 return sim, var
 
@@ -508,7 +515,7 @@ def main(tier, seed):
         if k.startswith('max_megno_dev_x1000:'):
             V.counters[k] = max(rr['counters'].get(k, 0) for rr in res if isinstance(rr, dict) and 'counters' in rr)
     inc = []
-    for k in ('constructors_first', 'constructors_second', 'evolution_first', 'evolution_second', 'testparticle_variations', 'rescale_runs', 'rescales_triggered', 'megno_runs'):
+    for k in ('constructors_first', 'constructors_second', 'evolution_first', 'evolution_second', 'testparticle_variations', 'evolution_testparticle_variation_relative_to_jacobi_com', 'rescale_runs', 'rescales_triggered', 'megno_runs'):
         if V.counters.get(k, 0) == 0:
             inc.append('monitor counter %s is zero' % k)
     return V.finish(
